@@ -87,7 +87,7 @@ def describe_graph(clause, row, rows, line):
 def main(ctx):
     quick = ctx.tier == "quick"
     r, sched, samples = export_schedules(ctx, 8 if quick else 64)
-    extra = ["-big", "-fsync"]
+    extra = ["-big", "-fsync", "-contracts"]
     trace, stats, out = chainlib.run_histories(ctx, quick, extra_args=extra, sched=sched)
     if stats is None:
         vlib.driver_failure(ctx, out)
